@@ -139,7 +139,10 @@ Alphabet(s, k) ==
   IN
   {[Line(id, ts, s.ss[x].id, l[1], l[2]) EXCEPT !.addr = ad] : x \in Clients(s), l \in ClientLines(Families), ad \in addrs}
   \cup {IF l[1] = "" THEN [Line(id, ts, s.ss[x].id, l[2], l[3]) EXCEPT !.hrid = NickIdx[l[3][1]]]
-        ELSE SLine(id, ts, s.ss[x].id, l[1], l[2], l[3]) : x \in LinksOf(s), l \in ServiceLines(Families)}
+        ELSE SLine(id, ts, s.ss[x].id, l[1], l[2], l[3]) :
+          x \in LinksOf(s),
+          (* SVSNICK re-keys unconditionally: C14 only covers SVSNICK onto a FREE nickname (services ask first) *)
+          l \in {q \in ServiceLines(Families) : q[2] = "SVSNICK" => ~Has(s.nk, LcN(q[3][2]))}}
   \cup (IF "entry" \in Families
         THEN {Create(id, ts)} \cup {Delete(id, ts, s.ss[x].id) : x \in Clients(s)} \cup {Mod(id, ts, s.ss[x].id) : x \in Clients(s)}
              \cup {Config(id, ts, "B", [CfgB EXCEPT !.rev = s.cfg.rev + 1])}
